@@ -1308,6 +1308,24 @@ def manager_keys_not_derived(ctx, rule, floor=10):
     R.floor(rule, n, floor, "keyed table operations in RequestManager")
 
 
+def derived_impls_stay_derived(ctx, rule, items):
+    """items: [(label, regex of the impl method's path)]. The comparison / hashing / cloning of these values is what the
+    compiler derives - field by field over *both* operands. A hand-written replacement (case-insensitive hosts, a clone
+    that pre-allocates) is where `self.host == self.host` or `a clone of an empty builder is not empty` slip in."""
+    F, R = ctx.F, ctx.R
+    n = 0
+    for label, pat in items:
+        bs = [b for p_, b in F.bodies.items() if re.search(pat, p_) and b.kind in ("Fn", "AssocFn")]
+        if not bs:
+            R.anchor_lost(rule, "impl %s" % label)
+            continue
+        n += 1
+        for b in bs:
+            R.fn(b)
+            R.check(bool(b.d.get("from_expansion")), rule, "%s:derived" % label, "%s is the derived impl" % label, "%s is written by hand: it no longer is the field-by-field operation on both operands that the code around it relies on" % label, "%s:%d" % (b.file, b.lo))
+    return n
+
+
 def error_code_ints(ctx, b):
     """the i32 constants that reach the `code` argument of the ErrorObject constructors in `b` (directly or through locals)"""
     tr = ctx.tracer(follow_callers=False, follow_fields=False)
